@@ -69,3 +69,20 @@ package state
 //@     | result0.Header.ProposerAddress == proposerAddress && result0.LastCommit == commit
 //@   ensures time: result0.Header.Time == ite(height == state.InitialHeight, state.LastBlockTime, MedianTime(commit, state.LastValidators))
 //@   ensures hashes: result0.Header.LastCommitHash == types.Commit.Hash(commit) && result0.Header.DataHash == types.Data.Hash(&result0.Data) && result0.Header.EvidenceHash == types.EvidenceData.Hash(&result0.Evidence)
+
+// ---- C13: the validation entry point used by block sync ----
+// blockValidated(b, vals, h): BlockExecutor.ValidateBlock returned nil for block b against a state with validator set
+// vals and last block height h. Its body is validateBlock (proved exact above) followed by the evidence pool's
+// CheckEvidence (C11); TRUSTED here because validateBlock's contract is stated for a fresh ghost state.
+//@ spec func blockValidated(b *types.Block, vals *types.ValidatorSet, lastHeight int64) bool
+//@ func BlockExecutor.ValidateBlock
+//@   trusted
+//@   assigns block.LastCommit.hash, block.Data.hash, block.Evidence.hash, lastBasicOK, lastCommitVerified, state.LastValidators.totalVotingPower
+//@   ensures cache: old(wfCached(state.LastValidators)) ==> wfCached(state.LastValidators)
+//@   grants v: result == nil ==> blockValidated(block, state.Validators, state.LastBlockHeight)
+// ASSUMED about ApplyBlock where block sync uses it: the validator set of the state it returns is well formed (unique
+// non-negative powers within the cap are the subject of C08) with an unset or correct total cache.
+//@ func BlockExecutor.ApplyBlock
+//@   trusted
+//@   assigns heap
+//@   ensures wf: result2 == nil ==> (result0.Validators != nil && wfPowers(result0.Validators) && wfCached(result0.Validators))
